@@ -371,6 +371,7 @@ func (r *Resolver) onSetOrList(g, vg *Scope, name string, t *parser.Type, v *par
 			if err != nil {
 				return "", err
 			}
+			str = r.elemValue(eg, et.ValueType, str)
 			ss = append(ss, str+",")
 		}
 		if len(ss) == 0 {
@@ -413,6 +414,7 @@ func (r *Resolver) onMap(g, vg *Scope, name string, t *parser.Type, v *parser.Co
 			if err != nil {
 				return "", err
 			}
+			val = r.elemValue(eg, et.ValueType, val)
 			kvs = append(kvs, fmt.Sprintf("%s: %s,", key, val))
 		}
 		if len(kvs) == 0 {
@@ -494,6 +496,18 @@ func (r *Resolver) onStructLike(g, vg *Scope, name string, t *parser.Type, v *pa
 		return "&" + goType + "{}", nil
 	}
 	return fmt.Sprintf("&%s{\n%s\n}", goType, strings.Join(kvs, "\n")), nil
+}
+
+// elemValue adapts the code of a struct-like value, which is a pointer, to the element
+// type of a container, which is a value type with 'value_type_in_container'.
+func (r *Resolver) elemValue(g *Scope, t *parser.Type, code string) string {
+	if t.Category.IsStructLike() && r.util.Features().ValueTypeForSIC && !checkRefInterfaceType(r.util, g, t) {
+		if strings.HasPrefix(code, "&") {
+			return code[1:]
+		}
+		return "*" + code
+	}
+	return code
 }
 
 // derefType returns the type that t stands for with typedefs dereferenced and the
